@@ -189,6 +189,7 @@ def c20_rf21(run):
     rf_mir2c.rf93(run)
     rf_mir2c.rf95(run)
     run.min_instances('RF95', 6)
+    rf_vocab.rf103(run)
     run.min_instances('RF21', 8)
     rf_vocab.rf37(run, 'mir2c', ('MIR_module2c',))
     run.min_instances('RF37', 3)
@@ -222,6 +223,7 @@ def c10_vocab(run):
     run.min_instances('RF15', 3)
     rf_vocab.rf80(run)
     rf_vocab.rf85(run)
+    rf_vocab.rf103(run)
 
 
 def c17_rf2(run):
@@ -260,6 +262,7 @@ def c12_rf13(run):
     rf_bounds.rf13_exits(run)
     run.min_instances('RF13e', 8)
     rf_bounds.rf13c(run)
+    rf_bounds.rf105(run)
     run.min_instances('RF13c', 2)
 
 
@@ -415,6 +418,7 @@ def c03_rf11(run):
     run.min_instances('RF64', 10)
     rf_x86.rf77(run)
     rf_iface.rf89(run)
+    rf_x86.rf104(run)
 
 
 def c06_rf11(run):
